@@ -20,12 +20,12 @@ use trippy_tui::verif::{Args, TrippyConfig};
 static NEXT_FILE: AtomicUsize = AtomicUsize::new(0);
 
 thread_local! {
-    static FILE: String = format!("/verif/replays/tuisim-precedence-{}-{}.toml", std::process::id(), NEXT_FILE.fetch_add(1, Ordering::SeqCst));
+    static FILE: String = format!("{}/replays/tuisim-precedence-{}-{}.toml", simcore::verif_dir(), std::process::id(), NEXT_FILE.fetch_add(1, Ordering::SeqCst));
 }
 
 fn build(c: &GenConfig) -> Result<TrippyConfig, String> {
     FILE.with(|path| {
-        let _ = std::fs::create_dir_all("/verif/replays");
+        let _ = std::fs::create_dir_all(format!("{}/replays", simcore::verif_dir()));
         std::fs::write(path, c.toml()).map_err(|e| e.to_string())?;
         let argv = c.argv(path);
         let args = Args::try_parse_from(&argv).map_err(|e| format!("cli: {}", e.kind()))?;
@@ -124,7 +124,7 @@ pub fn run(batch: u64, n: u64) -> (Value, Vec<(String, u64, String)>) {
         &stop,
     );
     // remove the scratch files of this process
-    if let Ok(rd) = std::fs::read_dir("/verif/replays") {
+    if let Ok(rd) = std::fs::read_dir(format!("{}/replays", simcore::verif_dir())) {
         let prefix = format!("tuisim-precedence-{}-", std::process::id());
         for e in rd.flatten() {
             if e.file_name().to_string_lossy().starts_with(&prefix) {
